@@ -7,7 +7,7 @@
     comment, element with attributes and its own child list) is kept in the view state that
     owns it, exactly like the [Render::State]s keep handles to their nodes.  Model only. *)
 From Coq Require Import List NArith Bool Arith.
-From LV Require Import Dom.Dom.
+From LV Require Import Dom.Dom Dom.Keyed.
 Import ListNotations.
 
 Definition str := list N.
@@ -24,7 +24,8 @@ Inductive view :=
 | VEither (arity : nat) (branch : nat) (child : view)   (* Either (2) / EitherOf3 (3) *)
 | VOpt (o : option view)
 | VVec (l : list view)
-| VStatic (l : list view).
+| VStatic (l : list view)
+| VKeyed (items : list (N * view)).                (* keyed(items, key, view_fn), item views erased *)
 
 (** what the DOM holds for an element: id attribute, hidden attribute, class attribute
     (its tokens), inline style color *)
@@ -41,24 +42,27 @@ Inductive st :=
 | SOptSome (child : st)                            (* OptionState = Either<T::State, Placeholder> *)
 | SOptNone (ph : N)
 | SVec (l : list st) (marker : N)                  (* VecState *)
-| SStatic (l : list st) (mounted : bool).          (* StaticVecState; [mounted] = parent.is_some() *)
+| SStatic (l : list st) (mounted : bool)           (* StaticVecState; [mounted] = parent.is_some() *)
+| SKeyed (rows : list (N * nat * st)) (marker : N) (gen : nat).
+                                                   (* KeyedState: key, number of the view_fn call, item state *)
 
 (** [TypeId] of the erased view: its outermost constructor *)
-Inductive tcode := TText (kind : nat) | TUnit | TEl (tag : nat) | TTuple (arr : bool) (n : nat) | TEither (arity : nat) | TOpt | TVec | TStatic.
+Inductive tcode := TText (kind : nat) | TUnit | TEl (tag : nat) | TTuple (arr : bool) (n : nat) | TEither (arity : nat) | TOpt | TVec | TStatic | TKeyed.
 
 Definition tc_view (v : view) : tcode :=
   match v with
   | VText k _ => TText k | VUnit => TUnit | VEl tag _ _ => TEl tag | VTuple arr l => TTuple arr (length l)
-  | VEither ar _ _ => TEither ar | VOpt _ => TOpt | VVec _ => TVec | VStatic _ => TStatic
+  | VEither ar _ _ => TEither ar | VOpt _ => TOpt | VVec _ => TVec | VStatic _ => TStatic | VKeyed _ => TKeyed
   end.
 Definition tc_st (s : st) : tcode :=
   match s with
   | SText _ k _ => TText k | SUnit _ => TUnit | SEl _ tag _ _ _ _ => TEl tag | STuple arr l => TTuple arr (length l)
   | SEither ar _ _ => TEither ar | SOptSome _ | SOptNone _ => TOpt | SVec _ _ => TVec | SStatic _ _ => TStatic
+  | SKeyed _ _ _ => TKeyed
   end.
 Definition tcode_eqb (a b : tcode) : bool :=
   match a, b with
-  | TUnit, TUnit | TOpt, TOpt | TVec, TVec | TStatic, TStatic => true
+  | TUnit, TUnit | TOpt, TOpt | TVec, TVec | TStatic, TStatic | TKeyed, TKeyed => true
   | TText x, TText y => Nat.eqb x y
   | TEither x, TEither y => Nat.eqb x y
   | TEl x, TEl y => Nat.eqb x y
@@ -133,6 +137,7 @@ Fixpoint ids (s : st) : list N :=
   | SOptNone ph => [ph]
   | SVec l mk => flat_map ids l ++ [mk]
   | SStatic l _ => flat_map ids l
+  | SKeyed rows mk _ => flat_map (fun r => ids (snd r)) rows ++ [mk]
   end.
 
 (** [mount] reaches every member state; a StaticVec remembers that it has a parent *)
@@ -143,6 +148,7 @@ Fixpoint mark_mounted (s : st) : st :=
   | SOptSome c => SOptSome (mark_mounted c)
   | SVec l mk => SVec (map mark_mounted l) mk
   | SStatic l _ => SStatic (map mark_mounted l) true
+  | SKeyed rows mk g => SKeyed (map (fun r => (fst r, mark_mounted (snd r))) rows) mk g
   | _ => s
   end.
 
@@ -170,6 +176,12 @@ Fixpoint anchor_of (s : st) (dom : list N) : option N :=
                  end
   | SStatic l _ => (fix first l := match l with [] => None | x :: r =>
                       match anchor_of x dom with Some a => Some a | None => first r end end) l
+  | SKeyed rows mk _ =>
+      (* rendered_items.first(): only the first row is asked; the marker if there is no row *)
+      match rows with
+      | r :: _ => anchor_of (snd r) dom
+      | [] => if memN mk dom then Some mk else None
+      end
   end.
 
 (** returns the child as mounted (or untouched when [self] is not in the UI — the boolean
@@ -216,6 +228,14 @@ Fixpoint build (v : view) (nx : N) : st * N :=
                                        let '(ss, n2) := go r n1 in (s :: ss, n2)
                            end) l nx in
       (SStatic ss false, nx1)
+  | VKeyed items =>
+      (* rows are built in order, then the marker is created *)
+      let '(rows, nx1) := (fix go (l : list (N * view)) (g : nat) (nx : N) := match l with
+                             | [] => ([], nx)
+                             | (k, x) :: r => let '(s, n1) := build x nx in
+                                              let '(rest, n2) := go r (S g) n1 in ((k, g, s) :: rest, n2)
+                             end) items 0 nx in
+      (SKeyed rows nx1 (length items), (nx1 + 1)%N)
   end.
 
 (* --------------------------------------------------------------------------- rebuild *)
@@ -315,5 +335,29 @@ Fixpoint rebuild_any (v : view) (s : st) (w : rw) {struct v} : st * rw :=
                           end) l (r_next w) in
       let '(s', d2) := mount_st (SStatic ns false) None d1 in
       (s', {| r_dom := d2; r_next := nx; r_panic := r_panic w |})
+  | VKeyed items, SKeyed rows mk g0 =>
+      (* Keyed::rebuild = diff + apply_diff of Keyed.v, the item views being whatever views the
+         keys map to; retained rows keep their state untouched (view_fn is not called for them) *)
+      let keys := map fst items in
+      let view_of := fun k => match find (fun kv => N.eqb (fst kv) k) items with
+                              | Some kv => snd kv | None => VUnit end in
+      let bld : builder := fun k nx => let '(c, nx') := build (view_of k) nx in (ids c, nx') in
+      let kst := {| ks_bld := bld; ks_dom := r_dom w; ks_marker := mk;
+                    ks_keys := map (fun r => fst (fst r)) rows;
+                    ks_items := map (fun r => {| it_key := fst (fst r); it_gen := snd (fst r);
+                                                 it_nodes := ids (snd r) |}) rows;
+                    ks_next := r_next w; ks_gen := g0 |} in
+      let '(kst', _, p) := Keyed.rebuild kst keys in
+      let rows' := (fix go (its : list item) (nx : N) := match its with
+                      | [] => []
+                      | it :: r =>
+                          match find (fun r0 => N.eqb (fst (fst r0)) (it_key it)) rows with
+                          | Some r0 => (it_key it, it_gen it, snd r0) :: go r nx
+                          | None => let '(c, nx') := build (view_of (it_key it)) nx in
+                                    (it_key it, it_gen it, c) :: go r nx'
+                          end
+                      end) (ks_items kst') (r_next w) in
+      (SKeyed rows' mk (ks_gen kst'),
+       {| r_dom := ks_dom kst'; r_next := ks_next kst'; r_panic := r_panic w || p |})
   | _, _ => (s, rpanic w)
   end.
